@@ -16,21 +16,23 @@ type specError struct{ msg string }
 
 // Env is the context in which a spec expression is translated.
 type Env struct {
-	g          *Gen
-	f          *Frame
-	at         *ssa.BasicBlock
-	heap       *HeapState
-	old        *HeapState
-	bind       map[string]Val
-	over       map[ssa.Value]Val
-	results    []Val
-	pkg        *types.Package
-	reach      string
-	symHeap    *symHeap // when translating a spec function body
-	inOld      bool
-	inQuant    int
-	lemmaFrame *Frame
-	upTo       int
+	g           *Gen
+	f           *Frame
+	at          *ssa.BasicBlock
+	heap        *HeapState
+	old         *HeapState
+	bind        map[string]Val
+	over        map[ssa.Value]Val
+	results     []Val
+	pkg         *types.Package
+	reach       string
+	symHeap     *symHeap // when translating a spec function body
+	inOld       bool
+	inQuant     int
+	lemmaFrame  *Frame
+	upTo        int
+	appendArg   ssa.Value
+	appendFrame *Frame
 }
 
 type symHeap struct {
